@@ -643,6 +643,8 @@ def run_case(case):
 
     names = [p['name'] for p in programs]
     plugin.reset()
+    seams.install()     # before any model exists: a compiler whose evaluation context was made
+    #                     earlier (a model handed over after its first use) would have no yield points
     if not _CANARY['done']:
         # first case of this process: nothing has evaluated a formula yet
         _CANARY['done'] = True
